@@ -75,6 +75,9 @@ class Callee:
         return "Callee(%s recv=%s)" % (self.name, self.recv)
 
 
+_INT_TYPES = ("u8", "u16", "u32", "u64", "u128", "usize", "i8", "i16", "i32", "i64", "i128", "isize")
+
+
 def _is_str_ref(ty):
     import re
     return re.match(r"^&\s*('\w+\s+)?str$", (ty or "").strip()) is not None
@@ -96,6 +99,8 @@ def _conversion_name(c):
         return "String::push_str"      # impl AddAssign<&str> for String is push_str
     if src is None:
         return None
+    if c.name == "From::from" and src.strip() == "bool" and tgt.strip() in _INT_TYPES:
+        return "cast_bool_to:" + tgt.strip()      # usize::from(b) is `b as usize`
     th = ty_head(tgt)
     if th == "String" and _is_str_ref(src):
         return "String::from"
